@@ -120,7 +120,14 @@ def parseCase (j : Json) : Option Case := do
     | some .null => some none
     | some o => (jsonToNats? o).map some
   let eps := (getRat? j "eps").getD ((1 : Rat) / 1000000000)
-  let cfg : Cfg := { ndim, o, u, v, n, dx, dy, dz, nx, ny, nz, op, diag, slab, radial, depth, depth2d, scale }
+  -- a layer's own "op" (Layer(operation=...)) overrides the call-level one for its rows
+  let layerJs ← getArr? j "layers"
+  let rowOps : List Op := (List.zip layerJs layers).flatMap fun (p : Json × LayerData) =>
+    let o := ((getStr? p.1 "op").bind Op.fromString?).getD op
+    match p.2 with
+    | .scalar _ => [o]
+    | .vector _ => [o, o, o]
+  let cfg : Cfg := { ndim, o, u, v, n, dx, dy, dz, nx, ny, nz, op, diag, slab, radial, depth, depth2d, scale, rowOps }
   let mesh : List Cell := (List.zip (List.range centres.length) (List.zip centres sizes)).map fun p =>
     { c := p.2.1, s := p.2.2, vals := binVals cfg layers p.1 }
   pure { cfg, layers, mesh, order, eps, spec := (getBool? j "spec").getD true }
@@ -168,7 +175,7 @@ def specPixel (cs : Case) (meshA : Array Cell) (nl : Nat) (pts : List V3) (thick
     | a :: r => r.any (· != a)
   let ambig := (List.range nl).any fun l => cls.any fun c => distinct (cand l c)
   let red (pick : List Val → Val) (l : Nat) : Val :=
-    (reduce cs.cfg.op (cls.map fun c => pick (cand l c))).map (· * scaleFactor thick cs.cfg.op zsp)
+    (reduce (cs.cfg.opOf l) (cls.map fun c => pick (cand l c))).map (· * scaleFactor thick (cs.cfg.opOf l) zsp)
   match cls with
   | [one] => { accept := one.1, touch := one.2.1, near, ambig, empty,
                lo := (List.range nl).map (red optMin), hi := (List.range nl).map (red optMax) }
@@ -262,7 +269,8 @@ def handleMapCase (j : Json) : Json :=
           ("window", ratsToJson [res.grid.xlo, res.grid.xlo + res.grid.xsp * (res.grid.nx : Rat),
                                  res.grid.ylo, res.grid.ylo + res.grid.ysp * (res.grid.ny : Rat)]),
           ("binned", Json.arr (res.binned.map valsToJson).toArray),
-          ("mask", boolsToJson res.mask), ("unitPower", natJson res.unitPower)]
+          ("mask", boolsToJson res.mask), ("unitPower", natJson res.unitPower),
+          ("unitPowers", Json.arr (res.unitPowers.map natJson).toArray)]
     -- a thick map without dx: the model's depth samples are not the Spec's; face flags for the model's own samples
     let own : List (String × Json) := match r, cs.cfg.dx, cs.cfg.dz with
       | .ok res, none, some _ =>
